@@ -193,11 +193,11 @@ theorem addMissingLoop_orig (known : List Imp) (all : List (Nat × Str)) (st st'
     · rename_i imp hk
       split at h
       · exact ih st added h
-      · simp only [bind, Except.bind] at h
-        split at h
-        · cases h
+      · split at h
         · rename_i st1 h1
           rw [ih st1 _ h, addImport_orig st st1 imp _ h1]
+        · exact ih st _ h
+        · cases h
     · exact ih st added h
 
 theorem addMandatoryLoop_orig (st st' : St) (ms : List Imp) (h : addMandatoryLoop st ms = .ok st') :
@@ -414,6 +414,44 @@ theorem addImport_adds (st st' : St) (imp : Imp) (ml : Option Nat) (h : addImpor
       rcases mem_allImports_updSet_with _ _ _ _ hi with h | h
       · left; exact h
       · right; rw [← hex.2]; exact h
+
+theorem mem_allImports_of_mem (bs : List Block) (b : Block) (i : Imp) (hb : b ∈ bs) (hi : i ∈ setOf b) :
+    i ∈ allImports bs := by
+  induction bs with
+  | nil => simp at hb
+  | cons x xs ih =>
+    simp at hb
+    rcases hb with rfl | hb
+    · cases b with
+      | verbatim ss ins => simp [setOf] at hi
+      | imports id s l e bl set => simp [setOf] at hi; simp [allImports, hi]
+    · have := ih hb
+      cases x with
+      | verbatim ss ins => simpa [allImports] using this
+      | imports id s l e bl set => simp [allImports, this]
+
+/-- `add_import` raising ImportAlreadyExistsError means the import is already held by a block -/
+theorem addImport_exists_mem (st : St) (imp : Imp) (ml : Option Nat) (e : Err)
+    (h : addImport st imp ml = .error e) : imp ∈ allImports st.blocks := by
+  unfold addImport at h
+  split at h
+  rename_i st1 id hsel
+  simp only [] at h
+  split at h
+  · rename_i hmem
+    have hall : allImports st1.blocks = allImports st.blocks := by
+      split at hsel
+      · cases hsel; rfl
+      · unfold insertNewImportBlock at hsel
+        cases hsel
+        exact allImports_insertAfterComments _ _
+    rw [← hall]
+    cases hf : st1.blocks.find? (fun b => blockId b = some id) with
+    | none => simp [hf] at hmem
+    | some b =>
+      simp [hf] at hmem
+      exact mem_allImports_of_mem _ b imp (List.mem_of_find?_eq_some hf) hmem
+  · cases h
 
 theorem addImport_exists_err (st : St) (imp : Imp) (ml : Option Nat) (e : Err)
     (h : addImport st imp ml = .error e) : e = .importAlreadyExists := by
